@@ -39,6 +39,7 @@ pub const SUBS: &[SubDef] = &[
     SubDef { prop: "C01", name: "assets", oracle: assets },
     SubDef { prop: "C01", name: "histories", oracle: histories },
     SubDef { prop: "C01", name: "long_histories", oracle: long_histories },
+    SubDef { prop: "C01", name: "oversize_histories", oracle: oversize_histories },
     SubDef { prop: "C01", name: "entry_points_raw", oracle: entry_points_raw },
     SubDef { prop: "C01", name: "edge_matrix", oracle: edge_matrix },
 ];
@@ -64,6 +65,15 @@ fn run(ctx: &Ctx) {
     } else {
         ctx.run_tape("long_histories", long_histories, 200, 4000);
     }
+    // hand-built records (TlsRawRecord is a public struct: parse_record accepts any data length) around the 10 MiB limit as the
+    // FIRST fragment, followed by a short generated history: the state "buffer already at or over the limit" is reachable only this way
+    let per = ctx.pick(2, 12);
+    let cases = (0..OVERSIZE_LENS.len() as u8).flat_map(|m| (0..per as u8).map(move |k| (m, k))).map(|(m, k)| {
+        let mut v = vec![m];
+        v.extend(vmodel::tape::fill(ctx.seed ^ (0xC0115 + ((m as u64) << 8) + k as u64), 600));
+        v
+    });
+    ctx.run_enum("oversize_histories", oversize_histories, false, "first fragments of 10 MiB-2 .. 10 MiB+4096 and 2^24-1 bytes built by hand, each followed by a generated history of up to 12 calls", cases.collect::<Vec<_>>().into_iter());
     ctx.run_tape("entry_points_raw", entry_points_raw, ctx.pick(4_000, 200_000), 80);
     // enumerated: every known extension / handshake / content type x declared length 0..5 x body size {0,1,2,3,5,9} x 3 fill patterns
     let mut cases = Vec::new();
@@ -796,6 +806,38 @@ fn histories(t: &mut Tape, obs: &mut Obs) -> R {
     let r = run_history(&ops, obs);
     alloc::inflight_clear();
     r
+}
+
+const OVERSIZE_LENS: [usize; 8] = [MAX_DEFRAG - 2, MAX_DEFRAG - 1, MAX_DEFRAG, MAX_DEFRAG + 1, MAX_DEFRAG + 2, MAX_DEFRAG + 4096, MAX_DEFRAG - 16640, (1 << 24) - 1];
+const MAX_DEFRAG: usize = 10 * 1024 * 1024;
+
+/// a first fragment of about 10 MiB, then a few more calls: whatever the size of the stored first fragment, every later call returns
+fn oversize_histories(t: &mut Tape, obs: &mut Obs) -> R {
+    let n = OVERSIZE_LENS[t.u8() as usize % OVERSIZE_LENS.len()];
+    let ctype = t.pick(&[0x16u8, 0x16, 0x18]);
+    let mut data = vec![0x2e; n];
+    if ctype == 0x16 {
+        data[..4].copy_from_slice(&[11, 0xff, 0xff, 0xff]);
+    } else {
+        data[..3].copy_from_slice(&[1, 0xff, 0xff]);
+    }
+    let mut ops = vec![Op::Parse(super::c07::Rec::new(ctype, 0x0303, data))];
+    for _ in 0..1 + t.below(12) {
+        let sz = match t.below(6) {
+            0 => 0,
+            1 => 1,
+            2 => 16640,
+            3 => 16384,
+            _ => t.below(2000),
+        };
+        let r = super::c07::Rec::new(if t.chance(40) { t.pick(&[0x17u8, 0x15, 0x18, 0x16]) } else { ctype }, 0x0303, vec![0x2f; sz]);
+        ops.push(match t.below(12) {
+            0 => Op::NoCopy(r),
+            1 if t.chance(60) => Op::Reset,
+            _ => Op::Parse(r),
+        });
+    }
+    run_history(&ops, obs)
 }
 
 /// long streams (up to 1600 records of up to 16 KiB = 25 MiB fed): reach the 10 MiB cap with content that never completes
